@@ -79,7 +79,9 @@ CHECKS = {
              "and evaluation the definition of the architecture it is based on is observed and must be unchanged.",
         design_ref="6 (C16)"),
     "C05": dict(
-        technique="TLA+ specification of layer semantics (LayerSem.tla) model-checked with TLC; TLC-emitted states "
+        technique="TLA+ specification of layer semantics (LayerSem.tla) model-checked with TLC, its structural laws "
+                  "proved with TLAPS for arbitrary layer denotations (LayerLaws.tla, bound by a TLC-checked agreement "
+                  "invariant); TLC-emitted states "
                   "replayed into real LayeredArchitecture/LayerRule objects and validated by Trace_Layers.tla",
         text="Layer semantics (one unit per layer, same-layer imports never count, unmentioned layers = no layer) are "
              "TLA+ operators; TLC checks on every import relation of a bounded world that dropping unmentioned layers and "
